@@ -23,12 +23,12 @@ namespace avel {
         //=================================================
 
         explicit Denominator(std::int32_t d):
-            Denominator(d, max(bit_width(abs(d) - 1), std::int32_t(1))) {}
+            Denominator(d, max(bit_width(std::int32_t(std::uint32_t(abs(d)) - 1)), std::int32_t(1))) {}
 
     private:
 
         explicit Denominator(std::int32_t d, std::int32_t l):
-            mp((std::int64_t(0x80000000) << l) / abs(d) - 0xffffffff),
+            mp((std::int64_t(0x80000000) << l) / std::int64_t(std::uint32_t(abs(d))) - 0xffffffff),
             d_sign(d >> 31),
             sh(l - 1),
             d(d) {}
@@ -42,7 +42,8 @@ namespace avel {
         [[nodiscard]]
         AVEL_FINL friend div_type<std::int32_t> div(std::int32_t n, Denominator denom) {
             std::int32_t q0 = n + (std::int64_t(denom.mp) * std::int64_t(n) >> 32);
-            q0 = (q0 >> denom.sh) - (n >> 31);
+            // Unsigned subtraction: the difference wraps for n == INT32_MIN
+            q0 = std::int32_t(std::uint32_t(q0 >> denom.sh) - std::uint32_t(n >> 31));
             std::int32_t q = (q0 ^ denom.d_sign) - denom.d_sign;
             std::int32_t r = n - (q * denom.d);
             return {q, r};
